@@ -302,7 +302,8 @@ fn concurrent_case(cx: &CaseCtx, rep: &mut Report, idx: u64) {
 	let boxes = Arc::new(boxes);
 	// cold starts: a freshly opened reader whose very first streams arrive at the same moment (whatever a reader
 	// sets up lazily on its first stream is set up under contention), then one more stream on it alone
-	let rounds = cx.tier.pick(60, 200);
+	// (a PMTiles stream is a lookup per coordinate: far slower per box, above all under a sanitizer)
+	let rounds = if kind == "pmtiles" { cx.tier.pick(6, 24) } else { cx.tier.pick(60, 200) };
 	let mut cold_bad: Option<String> = None;
 	let cold = guard::catch(|| {
 		for round in 0..rounds {
@@ -578,6 +579,46 @@ fn run_case(cx: &CaseCtx, rep: &mut Report) {
 		}
 		if rep.wants_sample() && nonempty_in_box > 1 && class != "exhaustive-small" {
 			rep.sample(json!({"source": kname, "bbox": bstr(&bbox), "box_class": class, "tiles_in_box": nonempty_in_box, "streamed": items.len()}));
+		}
+	}
+	// a generating source: two small streams alive at the same time (the second requested before the first is
+	// drained, then drained side by side) deliver what each delivers alone
+	if heavy {
+		let reader = &b.reader;
+		let boxes = [TileBBox::new(3, 0, 0, 3, 3).unwrap(), TileBBox::new(4, 2, 2, 5, 5).unwrap()];
+		let norm = |v: &Vec<(TileCoord3, Blob)>| {
+			let mut x: Vec<(Key, u64)> = v.iter().map(|(c, b)| (key_of(c), fnv(b.as_slice()))).collect();
+			x.sort();
+			x
+		};
+		let r = guard::catch(|| {
+			guard::block_on_mt(4, async {
+				let solo_a = reader.get_bbox_tile_stream(boxes[0].clone()).await.collect().await;
+				let solo_b = reader.get_bbox_tile_stream(boxes[1].clone()).await.collect().await;
+				// obtained first, drained later
+				let a = reader.get_bbox_tile_stream(boxes[0].clone()).await;
+				let bb = reader.get_bbox_tile_stream(boxes[1].clone()).await;
+				let late_a = a.collect().await;
+				let late_b = bb.collect().await;
+				// drained side by side
+				let a = reader.get_bbox_tile_stream(boxes[0].clone()).await;
+				let bb = reader.get_bbox_tile_stream(boxes[1].clone()).await;
+				let (side_a, side_b) = futures::join!(a.collect(), bb.collect());
+				(solo_a, solo_b, late_a, late_b, side_a, side_b)
+			})
+		});
+		rep.evals(4);
+		rep.count("pairs_of_streams_alive_at_once_on_a_generating_source", 2);
+		match r {
+			Err(p) => rep.violation(&p.signature(&format!("stream-pair-{kname}")), "two streams of one source alive at the same time panicked", json!({"source": kname, "panic": p.describe()})),
+			Ok((sa, sb, la, lb, xa, xb)) => {
+				for (what, got, want) in [("obtained first, drained later", &la, &sa), ("obtained first, drained later", &lb, &sb), ("drained side by side", &xa, &sa), ("drained side by side", &xb, &sb)] {
+					if norm(got) != norm(want) {
+						rep.violation(&format!("{kname}|streams-alive-at-once-differ"), "a stream that is alive together with another stream of the same source differs from the stream taken alone", json!({"source": kname, "source_detail": b.describe, "how": what, "tiles": got.len(), "alone": want.len()}));
+						break;
+					}
+				}
+			}
 		}
 	}
 	// stress: many streams (and lookups) of the same reader at once — tokio tasks on 8 workers; every concurrent
